@@ -21,14 +21,14 @@ def ofPy (r : Row) : RowMeta :=
 /-- one iteration of the translated loop against one unfolding of the model's recursion -/
 theorem loop1_step (nrow addl : Int) (np : Bool) (rows : List Row) (s : St) (r : Row) (hr : 0 ≤ r.total_rows)
     (k avail page cur : Nat)
-    (ha : s.available_rows = Int.ofNat avail) (hp : s.current_page = Int.ofNat page)
-    (hc : s.current_rows = Int.ofNat cur) :
+    (ha : s.v0 = Int.ofNat avail) (hp : s.v1 = Int.ofNat page)
+    (hc : s.v2 = Int.ofNat cur) :
     let brk := breaksBefore avail np cur (decide (k > 0)) (ofPy r)
     let page' := if brk then page + 1 else page
     let cur' := if brk then 0 else cur
     let s' := loop1 nrow addl np rows s (r, k)
-    s'.available_rows = Int.ofNat avail ∧ s'.current_page = Int.ofNat page' ∧
-      s'.current_rows = Int.ofNat (cur' + (ofPy r).total) ∧ s'.out_page = s.out_page ++ [Int.ofNat page'] := by
+    s'.v0 = Int.ofNat avail ∧ s'.v1 = Int.ofNat page' ∧
+      s'.v2 = Int.ofNat (cur' + (ofPy r).total) ∧ s'.out_page = s.out_page ++ [Int.ofNat page'] := by
   have ht : r.total_rows = Int.ofNat r.total_rows.toNat := by simp; omega
   generalize r.total_rows.toNat = t at ht
   have e1 : decide ((avail : Int) < (cur : Int) + (t : Int)) = decide (avail < cur + t) := by
@@ -41,7 +41,7 @@ theorem loop1_step (nrow addl : Int) (np : Bool) (rows : List Row) (s : St) (r :
 
 theorem loop_all (nrow addl : Int) (np : Bool) (rows : List Row) (avail : Nat) :
     ∀ (rs : List Row) (k page cur : Nat) (s : St), (∀ r ∈ rs, 0 ≤ r.total_rows) →
-      s.available_rows = Int.ofNat avail → s.current_page = Int.ofNat page → s.current_rows = Int.ofNat cur →
+      s.v0 = Int.ofNat avail → s.v1 = Int.ofNat page → s.v2 = Int.ofNat cur →
       ((rs.zipIdx k).foldl (loop1 nrow addl np rows) s).out_page =
         s.out_page ++ (assignAux avail np page cur (decide (k > 0)) (rs.map ofPy)).map Int.ofNat := by
   intro rs
@@ -69,7 +69,7 @@ theorem C04py_assign_pages_translated (nrow addl : Nat) (np : Bool) (rows : List
       | cons a as => simp; omega
     simp only [hl, decide_false, Bool.false_eq_true, ↓reduceIte]
     have := loop_all (Int.ofNat nrow) (Int.ofNat addl) np rows (availRows nrow addl) rows 0 1 0
-      { ({} : St) with available_rows := max 1 (Int.ofNat nrow - Int.ofNat addl), current_page := 1, current_rows := 0 }
+      { ({} : St) with v0 := max 1 (Int.ofNat nrow - Int.ofNat addl), v1 := 1, v2 := 0 }
       h (by simp [availRows]; omega) (by simp) (by simp)
     simpa using this
 
